@@ -290,6 +290,9 @@ pub struct Eng {
     pub c02_sigs: Vec<u64>,
     pub trace_sig: Sig,
     pub small_check: bool,
+    /// the device overwrites descriptor table and available ring after every fetch (C07)
+    pub scribbling: Option<u8>,
+    scribbles: u64,
 }
 
 fn pat(seed: u64, i: usize) -> u8 {
@@ -377,6 +380,8 @@ impl Eng {
             c02_sigs: Vec::new(),
             trace_sig: Sig::new(),
             small_check: n <= 4096,
+            scribbling: crate::devq::SCRIBBLE_ALL.with(|s| s.get()),
+            scribbles: 0,
         })
     }
 
@@ -591,7 +596,12 @@ impl Eng {
         self.ring_model[slot] = token;
         let ring_now = ring_now.map_err(|m| v("C04", m))?;
         let ring_now: Vec<u16> = ring_now.chunks(2).map(|c| u16::from_le_bytes([c[0], c[1]])).collect();
-        if ring_now != self.ring_model {
+        if self.scribbling.is_some() {
+            // only the new slot is meaningful while the device scribbles over the ring
+            if ring_now[slot] != token {
+                return Err(v("C01", format!("ring slot {} holds {} after submitting token {}", slot, ring_now[slot], token)));
+            }
+        } else if ring_now != self.ring_model {
             let bad = ring_now.iter().zip(self.ring_model.iter()).position(|(a, b)| a != b).unwrap();
             return Err(v(
                 "C01",
@@ -713,6 +723,20 @@ impl Eng {
                         break;
                     }
                 }
+            }
+        }
+        if let Some(seed) = self.scribbling {
+            self.scribbles += 1;
+            let k = self.scribbles as u8;
+            let n = self.n;
+            let garbage: Vec<u8> = (0..16 * n).map(|i| (i as u8).wrapping_mul(seed | 1).wrapping_add(k) ^ 0x3c).collect();
+            with(|w| {
+                let _ = w.hal.poke(self.rq.desc, &garbage);
+                let _ = w.hal.poke(self.rq.avail, &garbage[..2]);
+                let _ = w.hal.poke(self.rq.avail + 4, &garbage[..2 * n]);
+            });
+            for (i, x) in self.ring_model.iter_mut().enumerate() {
+                *x = u16::from_le_bytes([garbage[2 * i], garbage[2 * i + 1]]);
             }
         }
         Ok(())
@@ -1220,6 +1244,9 @@ pub fn run_case(c: &QCase, prop: &'static str, st: &mut Stats) -> Result<(), Str
                 }
                 "C05" => {
                     st.class_n("flag_and_used_event_checks", f.c05_checks as u64);
+                }
+                "C07" => {
+                    st.nontrivial(cs.get(), sample);
                 }
                 _ => {}
             }
